@@ -129,7 +129,54 @@ impl ReadVolatile for Rd {
     }
 }
 
+/// what the corresponding std::io operation does on a twin of the stream with an ordinary buffer
+pub struct StdTwin {
+    pub ok: bool,
+    pub n: usize,
+    pub bytes: Vec<u8>,
+    pub err_kind: u32,
+}
+
 impl Rd {
+    /// run `std::io::Read::read` / `read_exact` on a twin of this stream (only for the crate's
+    /// plain adapters: scripted streams have no std counterpart)
+    pub fn std_twin(&mut self, buflen: usize, exact: bool) -> Option<StdTwin> {
+        let mut buf = vec![0u8; buflen];
+        let run = |r: &mut dyn Read, buf: &mut Vec<u8>| -> StdTwin {
+            if exact {
+                match r.read_exact(&mut buf[..]) {
+                    Ok(()) => StdTwin { ok: true, n: buflen, bytes: buf.clone(), err_kind: 0 },
+                    Err(e) => StdTwin { ok: false, n: 0, bytes: vec![], err_kind: crate::slice::io_kind(&e) },
+                }
+            } else {
+                match r.read(&mut buf[..]) {
+                    Ok(n) => StdTwin { ok: true, n, bytes: buf[..n].to_vec(), err_kind: 0 },
+                    Err(e) => StdTwin { ok: false, n: 0, bytes: vec![], err_kind: crate::slice::io_kind(&e) },
+                }
+            }
+        };
+        match self {
+            Rd::Slice { data, pos } => {
+                let mut twin: &[u8] = &data[*pos..];
+                Some(run(&mut twin, &mut buf))
+            }
+            Rd::Cursor(c) => {
+                let mut twin = Cursor::new(c.get_ref().clone());
+                twin.set_position(c.position());
+                Some(run(&mut twin, &mut buf))
+            }
+            Rd::Fd { good, script, .. } if script.is_empty() => {
+                let mut twin = good.try_clone().ok()?;
+                let p = good.stream_position().ok()?;
+                let t = run(&mut twin, &mut buf);
+                // the clone shares the file offset: put it back
+                good.seek(SeekFrom::Start(p)).ok()?;
+                if exact { None } else { Some(t) }
+            }
+            _ => None,
+        }
+    }
+
     /// (bytes consumed so far, bytes still available)
     pub fn progress(&mut self) -> (usize, usize) {
         match self {
@@ -220,6 +267,35 @@ impl WriteVolatile for Wr {
 }
 
 impl Wr {
+    /// `std::io::Write::write` / `write_all` of `src` on a twin of this sink: (ok, count, sink contents afterwards, error kind)
+    pub fn std_twin(&mut self, src: &[u8], exact: bool) -> Option<(bool, usize, Vec<u8>, u32)> {
+        let run = |w: &mut dyn Write| -> (bool, usize, u32) {
+            if exact {
+                match w.write_all(src) { Ok(()) => (true, src.len(), 0), Err(e) => (false, 0, crate::slice::io_kind(&e)) }
+            } else {
+                match w.write(src) { Ok(n) => (true, n, 0), Err(e) => (false, 0, crate::slice::io_kind(&e)) }
+            }
+        };
+        match self {
+            Wr::MutSlice { buf, pos } => {
+                let mut twin = buf.clone();
+                let r = { let mut s: &mut [u8] = &mut twin[*pos..]; run(&mut s) };
+                Some((r.0, r.1, twin, r.2))
+            }
+            Wr::Vec(v) => {
+                let mut twin = v.clone();
+                let r = run(&mut twin);
+                Some((r.0, r.1, twin, r.2))
+            }
+            Wr::Cursor { buf, pos } => {
+                let mut twin = buf.clone();
+                let r = { let mut c = Cursor::new(&mut twin[..]); c.set_position(*pos); run(&mut c) };
+                Some((r.0, r.1, twin, r.2))
+            }
+            _ => None,
+        }
+    }
+
     /// (whole sink contents, position)
     pub fn state(&mut self) -> (Vec<u8>, u64) {
         match self {
